@@ -677,6 +677,12 @@ class Ev:
             if op in ("Eq", "Ne", "Lt", "Le", "Gt", "Ge"):
                 lt = (e["l"].get("ty") or "").replace("&", "").strip()
                 return cmp_sym(op, l, r, lt in INT_TYPES)
+        if op in ("Eq", "Ne") and any(isinstance(v, Sym) and v.tag[:2] == ("ctor", "None") for v in (l, r)) and \
+                not all(isinstance(v, Sym) and v.tag[0] == "ctor" for v in (l, r)):
+            # `x == None` is `x.is_none()`
+            other = r if (isinstance(l, Sym) and l.tag[:2] == ("ctor", "None")) else l
+            t = Sym("m", "is_none", vkey(other), ())
+            return t if op == "Eq" else Sym("not", vkey(t))
         if op in ("Eq", "Ne") and all(isinstance(v, Sym) and v.tag[0] == "ctor" and v.tag[1] in ("Some", "None") for v in (l, r)):
             # derived equality of Option: same constructor and equal payloads
             if l.tag[1] != r.tag[1]:
@@ -686,7 +692,9 @@ class Ev:
             if len(l.tag) == 3 and len(r.tag) == 3 and isinstance(l.tag[2], Poly) and isinstance(r.tag[2], Poly):
                 inner = re.sub(r"^.*?Option<(.*)>$", r"\1", (e["l"].get("ty") or "").replace("&", "").strip())
                 return cmp_sym(op, l.tag[2], r.tag[2], inner in INT_TYPES)
-        if op in ("Eq", "Ne", "Lt", "Le", "Gt", "Ge"):
+        if op in ("Eq", "Ne"):
+            return eq_sym(l, r) if op == "Eq" else Sym("not", vkey(eq_sym(l, r)))
+        if op in ("Lt", "Le", "Gt", "Ge"):
             return Sym("cmp", op, vkey(l), vkey(r))
         if isinstance(l, Sym) or isinstance(r, Sym):
             return Sym("op", op, vkey(l), vkey(r))    # opaque arithmetic on opaque values (dates + Days, ...)
@@ -855,7 +863,7 @@ class Ev:
                     return self.fork_exec(x["t"], env2, depth)
                 if r is False:
                     return self.fork_exec(x["e"], fork_env(env), depth) if "e" in x else [((), env)]
-                g = ("arm", pat_key(c["pat"]), vkey(v))
+                g = arm_guard(c["pat"], v)
                 env2 = fork_env(env)
                 self.bind_pat_loose(c["pat"], v, env2)
             else:
@@ -901,9 +909,9 @@ class Ev:
                         self.bind_pat_loose(a["pat"], scrut, env2)
                     except Unsupported:
                         pass
-                g = ("arm", pat_key(a["pat"]), vkey(scrut))
+                g = arm_guard(a["pat"], scrut)
                 if len(x["arms"]) == 2 and a is x["arms"][1] and catch_all(a) and r is None:
-                    g = neg_guard(("arm", pat_key(x["arms"][0]["pat"]), vkey(scrut)))
+                    g = neg_guard(arm_guard(x["arms"][0]["pat"], scrut))
                 self.path.append(g)
                 try:
                     out += [((g,) + g2, e2) for g2, e2 in self.fork_exec(a["body"], env2, depth)]
@@ -1024,7 +1032,7 @@ class Ev:
             c = x["c"]
             if c.get("k") == "letx":
                 v = self.eval(c["init"], env, depth)
-                g = ("arm", pat_key(c["pat"]), vkey(v))
+                g = arm_guard(c["pat"], v)
                 self.bind_pat_loose(c["pat"], v, env)
             else:
                 g = ("if", vkey(self.eval(c, env, depth)))
@@ -1050,7 +1058,7 @@ class Ev:
                     self.exec_stmt(a["body"], env, depth)
                     return
                 self.bind_pat_loose(a["pat"], scrut, env)
-                self.guards.append(("arm", pat_key(a["pat"]), vkey(scrut)))
+                self.guards.append(arm_guard(a["pat"], scrut))
                 try:
                     self.exec_stmt(a["body"], env, depth)
                 finally:
@@ -1129,6 +1137,16 @@ class Ev:
             self.loops = saved
         inits = tuple(vkey(env[v]) for v in assigned)
         steps = tuple(vkey(env2[v]) for v in assigned)
+        rep = counted_loop(assigned, env, env2, cond)
+        if rep is not None:
+            # a counted loop (`c := c0; while c </> N { x := f(x); c := c +/- 1 }`) applies f a fixed number of times: the same thing as
+            # `(0..n).fold(x0, |acc, _| f(acc))` — one canonical form for both spellings
+            xid, cid, count, final_c = rep
+            kx = assigned.index(xid)
+            step = key_subst(vkey(env2[xid]), vkey(Sym("loopvar", kx)), vkey(Sym("acc")))
+            env[xid] = Sym("repeat", count.key(), vkey(env[xid]), step)
+            env[cid] = final_c
+            return
         for k_, vid in enumerate(assigned):
             tag = ("iterate", k_, inits, vkey(cond), steps)
             env[vid] = Poly.atom(tag) if isinstance(env[vid], Poly) else Sym(*tag)
@@ -1164,7 +1182,7 @@ class Ev:
                 return self.eval(e["t"], env2, depth)
             if r is False:
                 return self.eval(e["e"], dict(env), depth) if "e" in e else Sym("unit")
-            g = ("arm", pat_key(e["c"]["pat"]), vkey(v))
+            g = arm_guard(e["c"]["pat"], v)
             env2 = dict(env)
             self.bind_pat_loose(e["c"]["pat"], v, env2)
         else:
@@ -1175,16 +1193,23 @@ class Ev:
             return self.eval(e["t"], env2, depth)
         if d is False:
             return self.eval(e["e"], dict(env), depth) if "e" in e else Sym("unit")
+        # a `return` inside one branch leaves the function on that branch only
         self.path.append(g)
         try:
             t = self.eval(e["t"], env2, depth)
+        except Return as ret:
+            t = EarlyRet(ret.value)
         finally:
             self.path.pop()
         self.path.append(neg_guard(g))
         try:
             f = self.eval(e["e"], dict(env), depth) if "e" in e else Sym("unit")
+        except Return as ret:
+            f = EarlyRet(ret.value)
         finally:
             self.path.pop()
+        if isinstance(t, EarlyRet) and isinstance(f, EarlyRet):
+            raise Return(Alt([(g, t.value), (neg_guard(g), f.value)]))
         if g[0] == "not":
             return Alt([(neg_guard(g), f), (g, t)])       # canonical order: the positive test first
         return Alt([(g, t), (neg_guard(g), f)])
@@ -1254,14 +1279,22 @@ class Ev:
         alts = []
         for n_, a in enumerate(e["arms"]):
             env2 = dict(env)
-            g = ("arm", pat_key(a["pat"]), vkey(scrut))
+            g = arm_guard(a["pat"], scrut)
             if n_ == 1 and len(e["arms"]) == 2 and catch_all(a):
                 g = neg_guard(alts[0][0])
             try:
                 self.bind_pat_loose(a["pat"], scrut, env2)
             except Unsupported:
                 pass
-            alts.append((g, self.eval(a["body"], env2, depth)))
+            self.path.append(g)
+            try:
+                alts.append((g, self.eval(a["body"], env2, depth)))
+            except Return as ret:
+                alts.append((g, EarlyRet(ret.value)))       # `None => return Err(..)`: only this arm leaves the function
+            finally:
+                self.path.pop()
+        if alts and all(isinstance(x, EarlyRet) for _, x in alts):
+            raise Return(Alt([(g, x.value) for g, x in alts]))
         return Alt(alts)
 
     def bind_pat_loose(self, pat, val, env):
@@ -1483,7 +1516,12 @@ class Ev:
                     body = self.collapse(self.eval(f.body, env2, depth))
                 finally:
                     self.loops.pop()
-                tag = ("fold", vkey(recv.src), vkey(args[0]), vkey(body))
+                src = vkey(recv.src)
+                qn = "q%d" % len(self.loops)
+                if isinstance(src, tuple) and src[:2] == ("sym", "range") and not isinstance(args[0], Poly) and not key_mentions(vkey(body), qn) and not recv.enumerated:
+                    count = poly_from_key(src[3]) - poly_from_key(src[2])
+                    return Sym("repeat", count.key(), vkey(args[0]), vkey(body))      # same canonical form as a counted while loop
+                tag = ("fold", src, vkey(args[0]), vkey(body))
                 return Poly.atom(tag) if isinstance(args[0], Poly) else Sym(*tag)
             if m == "filter" and len(args) == 1 and isinstance(args[0], Clo):
                 f = args[0]
@@ -1570,6 +1608,8 @@ class Ev:
                 return Sym("checked", m[8:], vkey(recv), vkey(args[0]))
             if m == "mul_add" and len(args) == 2:
                 return recv * args[0] + args[1]
+            if m == "cmp" and len(args) == 1 and isinstance(args[0], Poly) and recv.order == 0:
+                return Sym("icmp3", (recv - args[0]).key())          # Ord::cmp exists for integers only (f64 is not Ord)
             if m in ("partial_cmp", "cmp", "total_cmp") and len(args) == 1:
                 return Sym("partial_cmp", vkey(recv), vkey(args[0]))
             if m in ("eq", "ne", "lt", "le", "gt", "ge") and len(args) == 1 and isinstance(args[0], Poly):
@@ -1620,10 +1660,81 @@ class Ev:
             self.bind(f.params[0], Sym("payload", vkey(recv), 0), env2)
             body = self.collapse(self.eval(f.body, env2, depth))
             return Sym("optcase", m, vkey(recv), tuple(vkey(a) for a in args[:-1]), vkey(body))
+        if m in ("eq", "ne") and len(args) == 1 and not isinstance(recv, (Poly, Rec)) and not isinstance(args[0], (Poly, Rec)) and self.facts.fn(d) is None:
+            return eq_sym(recv, args[0]) if m == "eq" else Sym("not", vkey(eq_sym(recv, args[0])))      # a.eq(&b) is a == b
+        if isinstance(recv, Sym) and m == "is_some" and not args:
+            return Sym("not", vkey(Sym("m", "is_none", vkey(recv), ())))           # one spelling for is_some / !is_none / != None
         if isinstance(recv, Sym):
             # opaque: an unmodelled method of an opaque value stays an opaque value (it can only fail to match an expected form)
             return Sym("m", m, vkey(recv), tuple(vkey(a) for a in args))
         raise Unsupported("method %s (%s) on %s not modelled" % (m, d, vfmt(recv)[:80]))
+
+
+def key_subst(k, old, new):
+    if k == old:
+        return new
+    if isinstance(k, tuple):
+        return tuple(key_subst(x, old, new) for x in k)
+    return k
+
+
+def key_mentions(k, needle):
+    if k == needle:
+        return True
+    return isinstance(k, tuple) and any(key_mentions(x, needle) for x in k)
+
+
+def counted_loop(assigned, env, env2, cond):
+    """(x id, counter id, iteration count, final counter) if the while loop is: two locals, an integer counter c (constant start, +1 with guard c < N or
+    -1 with guard c > N, N loop-invariant) and one carried value x whose step does not read the counter. The count is N - c0 (resp. c0 - N); a
+    non-positive count means no iteration, as for an empty range."""
+    if len(assigned) != 2:
+        return None
+    for cid in assigned:
+        xid = [a for a in assigned if a != cid][0]
+        kc, kx = assigned.index(cid), assigned.index(xid)
+        c0, cstep = env[cid], env2[cid]
+        if not (isinstance(c0, Poly) and c0.const_value() is not None and isinstance(cstep, Poly)) or isinstance(env[xid], Poly):
+            continue
+        lv = Poly.atom(("loopvar", kc))
+        delta = (cstep - lv).const_value()
+        if delta not in (1, -1):
+            continue
+        if key_mentions(vkey(env2[xid]), ("loopvar", kc)) or not key_mentions(vkey(env2[xid]), vkey(Sym("loopvar", kx))):
+            continue
+        # guard: c < N  (delta +1)  or  c > N (delta -1), N free of loop variables; integer comparisons are canonical `p < 0` (possibly negated)
+        g = cond
+        negated = False
+        if isinstance(g, Sym) and g.tag[0] == "not" and isinstance(g.tag[1], tuple) and g.tag[1][:3] == ("sym", "cmp", "Lt") and len(g.tag[1]) == 4:
+            g, negated = Sym(*g.tag[1][1:]), True
+        if not (isinstance(g, Sym) and g.tag[:2] == ("cmp", "Lt") and len(g.tag) == 3):
+            continue
+        p = poly_from_key(g.tag[2])
+        if negated:
+            p = -p - Poly.const(1)                 # over the integers  !(q < 0)  ==  -q - 1 < 0
+        n_ = (lv - p) if delta == 1 else (lv + p)          # c - N < 0  ->  N = c - p ;  N - c < 0  ->  N = c + p
+        if key_mentions(n_.key(), ("loopvar", kc)) or key_mentions(n_.key(), ("loopvar", kx)):
+            continue
+        count = (n_ - c0) if delta == 1 else (c0 - n_)
+        return xid, cid, count, n_
+    return None
+
+
+def arm_guard(pat, scrut):
+    """Guard of a match arm. An arm of `a.cmp(&b)` (integers) on an Ordering variant is the integer comparison itself, so a match on the ordering and an
+    if-chain on the comparisons leave the same literals on their paths."""
+    if isinstance(scrut, Sym) and scrut.tag[:1] == ("icmp3",) and pat.get("k") == "path":
+        name = pat.get("def", "").rsplit("::", 1)[-1]
+        op = {"Less": "Lt", "Equal": "Eq", "Greater": "Gt"}.get(name)
+        if op:
+            return ("if", vkey(cmp_sym(op, poly_from_key(scrut.tag[1]), Poly.const(0), True)))
+    return ("arm", pat_key(pat), vkey(scrut))
+
+
+def eq_sym(a, b):
+    """Equality of two opaque values: symmetric, so the operands are kept in one canonical order."""
+    ka, kb = sorted([vkey(a), vkey(b)], key=repr)
+    return Sym("cmp", "Eq", ka, kb)
 
 
 def neg_guard(g):
@@ -1636,6 +1747,8 @@ def guard_of(cv):
         (g1, b1), (g2, b2) = cv.alts
         if g2 == neg_guard(g1) and all(isinstance(b, Sym) and b.tag[:1] == ("bool",) for b in (b1, b2)) and b1.tag[1] != b2.tag[1]:
             return g1 if b1.tag[1] == "true" else neg_guard(g1)
+    if isinstance(cv, Sym) and cv.tag[:1] == ("not",) and isinstance(cv.tag[1], tuple) and cv.tag[1][:1] == ("sym",):
+        return ("not", ("if", cv.tag[1]))          # `if !c {A} else {B}` branches on c
     return ("if", vkey(cv))
 
 
@@ -1697,10 +1810,14 @@ def cmp_sym(op, l, r, integer=False):
     if cv is not None:
         res = {"Eq": cv == 0, "Ne": cv != 0, "Lt": cv < 0, "Le": cv <= 0, "Gt": cv > 0, "Ge": cv >= 0}[op]
         return Sym("bool", "true" if res else "false")
-    if integer and op in ("Le", "Ge"):
-        if op == "Le":
-            return Sym("cmp", "Lt", (d - Poly.const(1)).key())
-        return Sym("cmp", "Lt", (-d - Poly.const(1)).key())
+    if integer and op in ("Lt", "Le", "Gt", "Ge"):
+        # over the integers every order test is `p < 0` for one p; p < 0 and -p - 1 < 0 are complementary, so the representative with a positive
+        # leading coefficient is kept and the other spelling becomes its negation (days >= 0  ==  !(days < 0))
+        p = {"Lt": d, "Le": d - Poly.const(1), "Gt": -d, "Ge": -d - Poly.const(1)}[op]
+        nonconst = sorted((kv for kv in p.t.items() if kv[0] != ((), None)), key=lambda kv: repr(kv[0]))
+        if nonconst and nonconst[0][1] < 0:
+            return Sym("not", Sym("cmp", "Lt", (-p - Poly.const(1)).key()).key())
+        return Sym("cmp", "Lt", p.key())
     if op in ("Eq", "Ne") and d.t:
         lead = sorted(d.t.items(), key=lambda kv: repr(kv[0]))[0][1]
         if lead < 0:
